@@ -109,6 +109,26 @@ def lemma_vacuity_probes(woven, info):
     return '\n'.join(lines)
 
 
+WRAPPER_SHARED = ['00_error.vspec', '02_types.vspec', '09_resolvers.vspec']
+WRAPPER_CFG = ['--cfg', 'feature="use-curve25519"', '--cfg', 'feature="use-chacha20poly1305"', '--cfg', 'feature="use-aes-gcm"',
+               '--cfg', 'feature="use-sha2"', '--cfg', 'feature="use-blake2"']
+
+
+def build_wrappers(vacuity=False):
+    """R16: the second verification unit (resolvers/default.rs against assumed dependency contracts)"""
+    ex = X.extract_wrappers(REPO, ROOT)
+    spec = '//@@SPECFILE spec/00_prims.rs\n' + open(os.path.join(ROOT, 'spec', '00_prims.rs')).read() + '\n'
+    deps = ''.join(open(p).read() + '\n' for p in sorted(glob.glob(os.path.join(ROOT, 'spec', 'deps', '*.rs'))))
+    src = ex.text.replace('//@SPEC-MODULES@', spec).replace('//@DEPS@', deps)
+    vspecs = [(os.path.join('contracts', f), open(os.path.join(ROOT, 'contracts', f)).read()) for f in WRAPPER_SHARED]
+    vspecs += [(os.path.relpath(p, ROOT), open(p).read()) for p in sorted(glob.glob(os.path.join(ROOT, 'contracts', 'wrappers', '*.vspec')))]
+    woven, info = W.weave(src, vspecs, vacuity=vacuity)
+    os.makedirs(BUILD, exist_ok=True)
+    path = os.path.join(BUILD, 'snow_wrappers%s.rs' % ('_vacuity' if vacuity else ''))
+    open(path, 'w').write(woven)
+    return ex, woven, info, path
+
+
 # --------------------------------------------------------------------------- verus
 
 def run_verus(path, woven, extra=(), tag=''):
@@ -173,6 +193,7 @@ class Model:
         self.lines = woven.split('\n')
         self.info = info
         self.fns = W.index_items(woven)            # [(line, id)]
+        self.fn_trait = dict(W.index_items.last_fn_trait)   # fn id -> trait it implements (if in an `impl T for X` block)
         self.fn_lines = [f[0] for f in self.fns]
         self.line_meta = info['line_meta']
         self.entry_props = {fe['id']: fe['props'] for fe in info['fn_entries']}
@@ -279,30 +300,70 @@ def map_diag(model, d, fname):
     return res
 
 
-def collect(vacuity=False):
-    ex, woven, info, path = build(vacuity=vacuity)
+UNITS = [
+    {'name': 'core', 'build': 'core', 'flags': [], 'prefixes': None, 'trusted': 'trusted.txt'},
+    {'name': 'wrappers', 'build': 'wrappers', 'flags': WRAPPER_CFG + ['--verify-module', 'resolvers::default'],
+     'prefixes': ('resolvers::default::',), 'trusted': os.path.join('wrappers', 'trusted.txt')},
+]
+
+
+def collect_unit(unit, vacuity=False):
+    if unit['build'] == 'core':
+        ex, woven, info, path = build(vacuity=vacuity)
+    else:
+        ex, woven, info, path = build_wrappers(vacuity=vacuity)
     model = Model(woven, info)
-    out, diags, hit, wall = run_verus(path, woven)
+    model.unit = unit
+    out, diags, hit, wall = run_verus(path, woven, extra=unit['flags'])
     vr = out.get('verification-results', {})
     if vr.get('encountered-vir-error') or ('verified' not in vr):
         # rustc / VIR level failure: the text did not type-check -> undecided
         errs = [d.get('rendered', d.get('message', '')) for d in diags if d.get('level') == 'error']
-        raise Undecided('verus rejected the woven text before verification (type error / unsupported construct):\n' + '\n'.join(errs)[:3000])
+        raise Undecided('verus rejected the woven text of unit %s before verification (type error / unsupported construct):\n' % unit['name'] + '\n'.join(errs)[:3000])
+    pre = unit['prefixes']
     funcs = {}
     for m in out.get('times-ms', {}).get('smt', {}).get('smt-run-module-times', []):
         for f in m.get('function-breakdown', []):
-            funcs[short_fn(f['function'])] = {'ok': bool(f.get('success')), 'ms': f.get('time', 0), 'mode': f.get('mode:', ''), 'rlimit': f.get('rlimit', 0)}
-    errors = [e for e in (map_diag(model, d, path) for d in diags) if e]
-    return {'ex': ex, 'model': model, 'out': out, 'funcs': funcs, 'errors': errors, 'cache_hit': hit, 'wall_s': wall,
+            fn = short_fn(f['function'])
+            if pre is None or fn.startswith(pre):
+                funcs[fn] = {'ok': bool(f.get('success')), 'ms': f.get('time', 0), 'mode': f.get('mode:', ''), 'rlimit': f.get('rlimit', 0), 'unit': unit['name']}
+    errors = []
+    for d in diags:
+        e = map_diag(model, d, path)
+        if e and (pre is None or (e.get('fn') or '').startswith(pre)):
+            e['unit'] = unit['name']
+            errors.append(e)
+    return {'unit': unit, 'ex': ex, 'model': model, 'funcs': funcs, 'errors': errors, 'cache_hit': hit, 'wall_s': wall,
             'path': path, 'verified': vr.get('verified', 0), 'nerrors': vr.get('errors', 0)}
 
 
+def collect(vacuity=False):
+    """run every verification unit and merge: function names of different units never collide (prefix filter)"""
+    units = [collect_unit(u, vacuity=vacuity) for u in UNITS]
+    res = {'units': units, 'funcs': {}, 'errors': [], 'cache_hit': all(u['cache_hit'] for u in units),
+           'wall_s': sum(u['wall_s'] for u in units), 'verified': sum(u['verified'] for u in units), 'nerrors': sum(u['nerrors'] for u in units),
+           'ex': units[0]['ex'], 'model': units[0]['model']}
+    for u in units:
+        res['funcs'].update(u['funcs'])
+        res['errors'] += u['errors']
+    return res
+
+
 def obligations(res):
-    """universe: {(fn,label): {'props': set, 'kind', 'texts': [..]}}"""
-    model = res['model']
+    """universe: {(fn,label): {'props': set, 'kind', 'texts': [..]}} over all units"""
     obs = {}
+    for u in res['units']:
+        _obligations_unit(u, obs)
+    return obs
+
+
+def _obligations_unit(res, obs):
+    model = res['model']
+    pre = res['unit']['prefixes']
     for ln, mt in sorted(model.line_meta.items()):
         if mt['kind'] in ('items', 'vacuity', 'assumed') or mt['fn'] is None:
+            continue
+        if pre is not None and not mt['fn'].startswith(pre):
             continue
         if mt['kind'] == 'spec' and re.match(r'\s*requires\b', mt['text']) and mt['label'] == 'contract':
             pass
@@ -316,12 +377,12 @@ def obligations(res):
     for fe in model.info['fn_entries']:
         if fe.get('decl_of_trait') and not fe['has_body']:
             decls[(fe['decl_of_trait'], fe['name'])] = fe
-    for fe in model.info['fn_entries']:
-        t = fe.get('impl_of_trait')
-        if t and (t, fe['name']) in decls and fe['id'] in res['funcs']:
-            o = obs.setdefault((fe['id'], 'implements_trait_contract'), {'props': set(), 'kind': 'trait', 'texts': ['meets the contract stated on trait %s::%s' % (t, fe['name'])], 'where': '%s:%d' % decls[(t, fe['name'])]['where']})
-            o['props'].update(fe['props'])
-            o['props'].update(decls[(t, fe['name'])]['props'])
+    for fid, t in model.fn_trait.items():
+        name = fid.split('::')[-1]
+        if (t, name) in decls and fid in res['funcs']:
+            o = obs.setdefault((fid, 'implements_trait_contract'), {'props': set(), 'kind': 'trait', 'texts': ['meets the contract stated on trait %s::%s' % (t, name)], 'where': '%s:%d' % decls[(t, name)]['where']})
+            o['props'].update(model.entry_props.get(fid, []))
+            o['props'].update(decls[(t, name)]['props'])
     for fn, st in res['funcs'].items():
         mod = fn.split('::')[0]
         if st['mode'] == 'exec' and mod in CRATE_MODS:
@@ -333,7 +394,6 @@ def obligations(res):
             if props:
                 o = obs.setdefault((fn, 'lemma'), {'props': set(), 'kind': 'lemma', 'texts': ['lemma statement'], 'where': ''})
                 o['props'].update(props)
-    return obs
 
 
 # --------------------------------------------------------------------------- trusted-base scan
@@ -364,8 +424,8 @@ def trusted_scan(model):
     return found
 
 
-def load_trusted_allow():
-    p = os.path.join(ROOT, 'contracts', 'trusted.txt')
+def load_trusted_allow(fname='trusted.txt'):
+    p = os.path.join(ROOT, 'contracts', fname)
     allow = []
     if os.path.exists(p):
         for l in open(p):
@@ -431,7 +491,8 @@ def check_property(pid, tier, res=None, vres=None, quiet=False):
             failed.setdefault(key, []).append(e)
     # functions whose proof hints / loop invariants could not be anchored (the code around them was restructured):
     # a failure there may be a lost proof rather than a violation -> undecided unless confirmed by a counterexample
-    tainted = {h['fn'] for h in res['model'].info.get('lost_hints', [])}
+    lost_hints = [h for u in res['units'] for h in u['model'].info.get('lost_hints', [])]
+    tainted = {h['fn'] for h in lost_hints}
     tainted_failed = {k: v for k, v in failed.items() if k[0] in tainted}
     failed = {k: v for k, v in failed.items() if k[0] not in tainted}
     # functions that failed without any mapped diagnostic (should not happen) -> undecided
@@ -447,11 +508,12 @@ def check_property(pid, tier, res=None, vres=None, quiet=False):
     vac_fail = []
     if vres is not None:
         probes = {}
-        for ln, mt in vres['model'].line_meta.items():
-            if mt['kind'] == 'vacuity' and mt['fn'] is None:
-                mt['fn'] = vres['model'].fn_at(ln)
-            if mt['kind'] == 'vacuity' and mt['fn'] in fns_mine:
-                probes[(mt['fn'], mt['label'])] = False
+        for vu in vres['units']:
+            for ln, mt in vu['model'].line_meta.items():
+                if mt['kind'] == 'vacuity' and mt['fn'] is None:
+                    mt['fn'] = vu['model'].fn_at(ln)
+                if mt['kind'] == 'vacuity' and mt['fn'] in fns_mine:
+                    probes[(mt['fn'], mt['label'])] = False
         for e in vres['errors']:
             k = (e.get('fn'), e.get('label'))
             if k in probes:
@@ -461,14 +523,19 @@ def check_property(pid, tier, res=None, vres=None, quiet=False):
         if vac_fail:
             raise Undecided('vacuity guard: assert(false) is provable in %s (contradictory precondition/invariant?)' % vac_fail)
     # trusted base
-    found = trusted_scan(res['model'])
-    allow = load_trusted_allow()
-    allow_set = {}
-    for a in allow:
-        allow_set[(a[0], a[1])] = allow_set.get((a[0], a[1]), 0)
-    unlisted = sorted({f for f in found if f not in allow_set})
-    if unlisted:
-        raise Undecided('trusted-base scan: unlisted assumption(s) in the woven text: %s' % unlisted[:8])
+    found = []
+    allow = []
+    for u in res['units']:
+        f_u = trusted_scan(u['model'])
+        a_u = load_trusted_allow(u['unit']['trusted'])
+        allow_set = {(a[0], a[1]) for a in a_u}
+        unlisted = sorted({f for f in f_u if f not in allow_set})
+        if unlisted:
+            raise Undecided('trusted-base scan (unit %s): unlisted assumption(s) in the woven text: %s' % (u['unit']['name'], unlisted[:8]))
+        # a unit's assumptions matter to this property only if the property has obligations in that unit
+        if any(res['funcs'].get(k[0], {}).get('unit') == u['unit']['name'] for k in mine):
+            found += [(u['unit']['name'],) + f for f in f_u]
+            allow += [(u['unit']['name'],) + a for a in a_u]
     known = load_known()
     violations = []
     known_hits = []
@@ -504,7 +571,7 @@ def check_property(pid, tier, res=None, vres=None, quiet=False):
         for l in lines_out:
             print(l)
         raise Undecided('obligation(s) %s failed in function(s) whose proof hints lost their anchor (%s); no counterexample available -> not reported as a violation'
-                        % (sorted('%s#%s' % k for k in tainted_failed), sorted({h['anchor'] for h in res['model'].info['lost_hints'] if h['fn'] in {k[0] for k in tainted_failed}})[:3]))
+                        % (sorted('%s#%s' % k for k in tainted_failed), sorted({h['anchor'] for h in lost_hints if h['fn'] in {k[0] for k in tainted_failed}})[:3]))
     elif resource:
         raise Undecided('resource limit / solver give-up in %s' % sorted({e.get('fn') for e in resource}))
     # evidence
@@ -516,12 +583,15 @@ def check_property(pid, tier, res=None, vres=None, quiet=False):
     for k, v in sorted(mine.items(), key=lambda kv: str(kv[0]))[:12]:
         samples.append({'obligation': '%s#%s' % k, 'kind': v['kind'], 'clause': v['texts'][:2], 'status': 'FAILED' if k in failed else 'discharged'})
     prop = load_props().get(pid, {})
-    trusted = sorted({'%s: %s%s' % (a[0], a[1], (' - ' + a[2]) if a[2] else '') for a in allow if (a[0], a[1]) in set(found)})
+    fset = {(f[0], f[1], f[2]) for f in found}
+    trusted = sorted({'[%s] %s: %s%s' % (a[0], a[1], a[2], (' - ' + a[3]) if a[3] else '') for a in allow if (a[0], a[1], a[2]) in fset})
     ev = {
         'property_id': pid, 'tier': tier, 'seed': seed, 'level': 'proof',
         'coverage': {
             'obligations': n_ob, 'discharged': n_dis,
-            'checker_cmd': 'verus build/snow_verus.rs ' + ' '.join(VERUS_FLAGS),
+            'checker_cmd': ' ; '.join('verus %s %s' % (os.path.relpath(u['path'], ROOT), ' '.join(VERUS_FLAGS + u['unit']['flags'])) for u in res['units']),
+            'units': [{'unit': u['unit']['name'], 'verus_wall_s': round(u['wall_s'], 1), 'cache_hit': u['cache_hit'], 'verified_functions': u['verified'], 'failed_functions': u['nerrors'],
+                       'extraction_rule_sites': u['ex'].counts, 'not_in_verified_text': u['ex'].dropped} for u in res['units']],
             'trusted_base': trusted,
             'samples': samples,
             'functions_under_contract': fn_list,
@@ -531,8 +601,6 @@ def check_property(pid, tier, res=None, vres=None, quiet=False):
             'result_cache_hit': res['cache_hit'],
             'whole_file_verified_functions': res['verified'], 'whole_file_failed_functions': res['nerrors'],
             'vacuity_probe': vac_note or 'not run in this tier',
-            'extraction_rule_sites': res['ex'].counts,
-            'not_in_verified_text': res['ex'].dropped,
             'all_obligations': sorted('%s#%s' % k for k in mine),
         },
         'assumptions': ASSUMPTIONS_COMMON + PROP_ASSUMPTIONS.get(pid, []),
